@@ -17,10 +17,10 @@ class Section:
         self.kind = kind; self.arg = arg; self.lines = lines; self.lineno = lineno
 
 class Template:
-    def __init__(self, name, path=None, strict=True):
-        self.name = name
+    def __init__(self, name, path=None, strict=True, pid=None):
+        self.name = name; self.pid = pid
         self.path = path or os.path.join(VERIF, "units", name + ".rs")
-        self.meta = {"serves": [], "source": None, "rewrite": [], "assume": [], "rlimit": None}
+        self.meta = {"serves": [], "source": None, "rewrite": [], "assume": [], "rlimit": None, "export": []}
         self.sections = []
         cur = None
         for ln, line in enumerate(open(self.path).read().split("\n"), 1):
@@ -32,6 +32,7 @@ class Template:
                 if d == "serves": self.meta["serves"] += args; continue
                 if d == "source": self.meta["source"] = args[0]; continue
                 if d == "rewrite": self.meta["rewrite"] += args; continue
+                if d == "export": self.meta["export"] += args; continue
                 if d == "rlimit": self.meta["rlimit"] = args[0]; continue
                 if d == "assume": self.meta["assume"].append(" ".join(args)); continue
                 if d == "section":
@@ -44,13 +45,17 @@ class Template:
                     raise ValueError("%s:%d text outside a section" % (self.path, ln))
                 continue
             # per-line carve-out tag:  <clause> //@finding <ID>
-            m = re.search(r"//@finding\s+(\S+)\s*$", line)
-            if m and strict:
-                cur.lines.append(""); continue
+            m = re.search(r"//@(only|not)\s+([A-Za-z0-9_ ]+?)\s*$", line)
+            if m:
+                ids = m.group(2).split()
+                keep = (pid in ids) if m.group(1) == "only" else (pid not in ids)
+                if not keep:
+                    cur.lines.append(""); continue
+                line = line[:m.start()]
             cur.lines.append(line)
 
-    def spec_text(self):
-        return "\n".join("\n".join(s.lines) for s in self.sections if s.kind == "spec")
+    def spec_text(self, exported_only=False):
+        return "\n".join("\n".join(s.lines) for s in self.sections if s.kind == "spec" and not (exported_only and s.arg == "local"))
 
     def code_items(self):
         """all template items of code sections: list of (section, Item)"""
@@ -67,7 +72,7 @@ def source_items(relpath):
     p = os.path.join(REPO, relpath)
     key = p
     if key not in _src_cache:
-        toks, _ = tokenize(open(p).read())
+        toks, _ = tokenize(open(p).read().replace('\r', ''))
         _src_cache[key] = split_items(toks)
     return _src_cache[key]
 
@@ -120,12 +125,12 @@ def _weave_real(b, unit, tmpl_item, src_item, label, rules):
     b.clauses += ncl
     return out, ncl
 
-def build(unit, strict=True, mutate=None):
+def build(unit, strict=True, mutate=None, pid=None):
     """returns Built. `mutate` (optional) is a function(text)->text applied to source files (canaries)."""
-    t = Template(unit, strict=strict)
+    t = Template(unit, strict=strict, pid=pid)
     b = Built(); b.template = t
-    chunks = ["// GENERATED by /verif/vf from /repo working tree + units/%s.rs -- do not edit\nuse vstd::prelude::*;\nverus! {\n" % unit]
-    b.ranges.append({"start": 1, "end": 4, "label": "<header>", "real": False})
+    chunks = ["// GENERATED by /verif/vf from /repo working tree + units/%s.rs -- do not edit\nuse vstd::prelude::*;\nverus! {\nglobal size_of usize == 8;\n" % unit]
+    b.ranges.append({"start": 1, "end": 5, "label": "<header>", "real": False})
     rules = ["vis", "static", "attr"] + t.meta["rewrite"]
     for s in t.sections:
         if s.kind == "spec":
@@ -139,10 +144,10 @@ def build(unit, strict=True, mutate=None):
                     if it.toks[k].text == "external_body":
                         b.stubs.append({"fn": it.name, "status": "assumed"})
         elif s.kind == "include-spec":
-            other = Template(s.arg[0], strict=strict)
-            _emit(b, chunks, "// ---- spec of unit %s ----\n" % s.arg[0] + other.spec_text() + "\n", "<spec:%s>" % s.arg[0], False)
+            other = Template(s.arg[0], strict=strict, pid=pid)
+            _emit(b, chunks, "// ---- spec of unit %s (its lemmas are proved there; here they are external_body) ----\n" % s.arg[0] + imported_spec(other, b) + "\n", "<spec:%s>" % s.arg[0], False)
         elif s.kind in ("stub", "stub-assumed"):
-            txt, info = make_stub(s.arg[0], s.arg[1], strict)
+            txt, info = make_stub(s.arg[0], s.arg[1], strict, pid)
             info["status"] = "proved-in:" + s.arg[0] if s.kind == "stub" else "assumed"
             b.stubs.append(info)
             _emit(b, chunks, txt + "\n", "<stub:%s %s>" % (s.arg[0], s.arg[1]), False)
@@ -195,10 +200,39 @@ def build(unit, strict=True, mutate=None):
     b.text = "".join(chunks)
     return b
 
-def make_stub(unit, fnpath, strict=True):
+def imported_spec(other, b):
+    toks, _ = tokenize(other.spec_text(exported_only=True))
+    out = []
+    exp = other.meta["export"]
+    for it in split_items(toks):
+        if exp:
+            if it.name not in exp: continue
+            if it.kind == "fn" and it.mode == "spec":
+                # abstract view: the importer sees an uninterpreted symbol, never the definition
+                body = first_brace_depth0(it.toks, it.kw_idx)
+                sig = it.toks[it.kw_idx:body]
+                from .weave import _first_clause_kw
+                ck = _first_clause_kw(sig, 0, len(sig))
+                if ck >= 0: sig = sig[:ck]
+                out.append("pub uninterp spec " + render(sig).strip() + ";")
+                continue
+        if it.kind == "fn" and it.mode == "proof":
+            body = first_brace_depth0(it.toks, it.kw_idx)
+            already = any(it.toks[k].text == "external_body" for k in range(it.attrs_end))
+            if body >= 0 and it.toks[body].text == "{" and not already:
+                sig = render(it.toks[:body]).strip()
+                out.append("#[verifier::external_body]\n" + sig + "\n{ }")
+                b.stubs.append({"fn": "lemma " + it.name, "status": "proved-in:" + other.name})
+                continue
+        if it.kind == "use" and it.toks[it.kw_idx].text == "global":
+            continue   # `global size_of` may appear once only; the including unit provides it
+        out.append(render(it.toks).strip("\n"))
+    return "\n".join(out)
+
+def make_stub(unit, fnpath, strict=True, pid=None):
     """external_body stub carrying the contract that `unit`'s template puts on fn `fnpath`
     (`name` or `Type::name`)."""
-    t = Template(unit, strict=strict)
+    t = Template(unit, strict=strict, pid=pid)
     ty = None; name = fnpath
     if "::" in fnpath:
         ty, name = fnpath.rsplit("::", 1)
